@@ -592,10 +592,18 @@ def main(repo_path, tier, seed, replay=None):
             run.violation('C02-W', f.file, f.func, f.construct, f.message, f.detail)
     run.instance('C02-W', 'widths of addresses, loaded values and write-back values', obligations=len(names), ok=True,
                  sample={'classes': len(names)})
+    from . import c17_arith
+    sub = Run('tmp')
+    c17_arith.check_arith(sub, repo)
+    used = ('add', 'sub', 'shift_c', 'lsl_c', 'lsr_c', 'asr_c', 'ror_c', 'sign_extend', 'to_signed', 'to_unsigned')
+    hb = [f for f in sub.findings if f.func in used]
+    for f in hb:
+        run.violation('C02-H', f.file, f.func, f.construct, f.message, f.detail)
+    run.instance('C02-H', 'add / sub mod 2^32, Shift_C, sign_extend bit-exact', obligations=len(used), ok=not hb, sample={'helpers': list(used)})
     controls(run, repo_path, repo, eff, fr, classes)
     run.exhaustive = True
     run.undecided = ['the bytes moved for given data, endianness and alignment (C13 accessor conformance, C17 helpers)',
-                     'that Shift computes the architectural offset (C17)']
+                     ]
     run.assumptions = ['families are bound through the reference encodings (spec/enc_*.json); operand decoding is C06/C07',
                        'Registers.get/set and the Mem* accessors are the only register/memory interfaces used by execute() bodies (C10-O, C19)']
     return run.finish(
